@@ -194,6 +194,25 @@ pub fn run_one(scn: Scenario, tape: Tape, sched: Option<Vec<u32>>, seed: u64, ex
         if msg.contains("WATCHDOG") {
             let op = w.op_label;
             w.violate_force("C16", format!("unbounded-loop-without-io/op={op}"), msg.clone());
+            // twin scenarios: the first execution (same program, no cancellations / whole reads and
+            // writes) got through, the second one loops
+            if w.second_execution {
+                match scn {
+                    Scenario::CancelTwin => w.violate_force("C13", format!("loops-without-io-after-cancellation/op={op}"), "the run with cancellations ends in a loop without I/O; the uncancelled run of the same program does not".into()),
+                    Scenario::FragTwin(_) => w.violate_force("C15", format!("loops-without-io-under-fragmentation/op={op}"), "the fragmented run ends in a loop without I/O; the unfragmented run of the same program does not".into()),
+                    _ => {}
+                }
+            }
+            // C10: the loop runs while the answer to the outstanding PINGREQ waits to be read - in
+            // real time it spins until the round-trip bound and then reports a dead peer
+            let cur = w.cur;
+            if !w.conns.is_empty() && w.conns[cur].pingreq_outstanding.is_some() && w.conns[cur].pingresp_available_t.is_some() && matches!(op, "poll" | "recv" | "drive") {
+                w.violate_force(
+                    "C10",
+                    format!("spins-without-reading-the-pingresp/op={op}"),
+                    "the client loops without I/O while the PINGRESP for its outstanding PINGREQ is readable".into(),
+                );
+            }
         } else if in_client || in_dep {
             let short: String = msg.chars().take(60).map(|c| if c.is_ascii_digit() { '#' } else if c.is_ascii_alphanumeric() { c } else { '-' }).collect();
             let file = loc.rsplit('/').next().unwrap_or("").to_string();
@@ -206,6 +225,13 @@ pub fn run_one(scn: Scenario, tape: Tape, sched: Option<Vec<u32>>, seed: u64, ex
                 "C16"
             };
             w.violate_force(prop, format!("panic/{file}/{short}"), format!("client panicked at {loc}: {msg}"));
+            if w.second_execution {
+                match scn {
+                    Scenario::CancelTwin => w.violate_force("C13", format!("panics-after-cancellation/{file}"), format!("the run with cancellations panics at {loc} ({msg}); the uncancelled run of the same program does not")),
+                    Scenario::FragTwin(_) => w.violate_force("C15", format!("panics-under-fragmentation/{file}"), format!("the fragmented run panics at {loc} ({msg}); the unfragmented run of the same program does not")),
+                    _ => {}
+                }
+            }
             if file.starts_with("packet_reader.rs") && (msg.contains("out of range") || msg.contains("out of bounds")) {
                 w.violate_force("C14", "inbound-overruns-receive-buffer".into(), format!("client panicked at {loc}: {msg}"));
             }
